@@ -711,6 +711,18 @@ func c14HTTPCases(m c14Method, full bool) []c14Case {
 			}
 		}
 	}
+	// a DAV:error document of some 150 KiB (one condition listing 3000 resources): the condition must still
+	// reach the caller with the status
+	{
+		cond := indep.E(indep.DAV, "no-conflicting-lock")
+		for i := 0; i < 3000; i++ {
+			cond.Add(indep.E(indep.DAV, "href").T(fmt.Sprintf("/locked/collection/member-%04d-with-a-long-name.ics", i)))
+		}
+		doc := string(indep.Render(indep.E(indep.DAV, "error", cond), indep.Style{Decl: true}))
+		for _, st := range []int{423, 409, 507} {
+			out = append(out, c14Case{Method: m.Name, Kind: "http", Status: st, CT: "application/xml; charset=utf-8", Body: doc, BodyID: "dav-error-big-1"})
+		}
+	}
 	// oversized bodies
 	big := strings.Repeat("lorem ipsum dolor\n", 2<<20/18)
 	deep := strings.Repeat("<a>", 20000) + strings.Repeat("</a>", 20000)
